@@ -1,23 +1,47 @@
-CLAIMED = False
-NOT_YET = "correspondence and oracle run green; theorems in progress (nothing is claimed yet)"
 _PIPE_TB = ["Go slice/index semantics as transcribed in Model/Trig.lean (every access through rd/sliceI, a Go panic is the value none)",
             "time.Time arithmetic (block time stamps are harness-chosen integers of nanoseconds)",
             "the kink-model fit of edge-multi (gonum least squares) enters the model as an oracle table of shifts in {-1,0,+1} obtained from the real zeroThreshold",
             "decimation is unreachable from any API and is not modelled"]
-CFG = dict(
-    rule="a scripted source (real AnySource) prepared by the real PrepareRun (restored or default trigger settings), configured through the real "
+_RULE = ("a scripted source (real AnySource) prepared by the real PrepareRun (restored or default trigger settings), configured through the real "
          "SourceControl.ConfigureTriggers / ConfigurePulseLengths and group-trigger requests, fed block by block through the real ProcessSegments; "
-         "1..3 channels, signed and unsigned, (npre,nsamp) from 3/4 to 16/64 (thorough: up to 100/400), streams: flat, pulses, steps, ramps, extremes around "
-         "the signed wrap, dense edges; block lengths 1,2,3, npre+-1, nsamp+-1, 2*nsamp+9..11, up to 4*nsamp or one block; all trigger kinds and "
-         "combinations incl. edge-multi (3 modes, zero-threshold on/off) and group triggers; control requests between blocks. Every captured record is "
-         "judged against the ground-truth stream the harness fed (samples, frame, time, lengths, signedness) and the whole output is compared with the Lean model. "
-         "Non-trivial = at least one record was emitted; distinct by input line.",
+         "1..3 channels, signed and unsigned, (npre,nsamp) from 3/4 to 16/64 (thorough: up to 100/400), streams: flat, pulses (instant and finite rise), steps, ramps, "
+         "extremes around the signed wrap, dense edges; block lengths 1,2,3, npre+-1, nsamp+-1, 2*nsamp+9..11, up to 4*nsamp or one block; ")
+
+CLAIMED = True
+CFG = dict(
+    rule=_RULE + "all trigger kinds and combinations incl. edge-multi (3 modes, zero-threshold on/off) and group triggers; control requests between blocks. "
+         "Every captured record is judged against the ground-truth stream the harness fed (samples, frame, time, lengths, signedness; a crash is a violation) "
+         "and the whole output is compared with the Lean model. Non-trivial = at least one record was emitted; distinct by input line.",
     nontrivial=["records"],
     jobs=seeds(1, 3),
-    lean_files=["Trig", "Pipe", "PipeJudge", "C01", "C09"],
+    lean_files=["Trig", "Pipe", "PipeJudge", "C01", "C09", "Pipe1", "Pipe2", "Pipe3", "Pipe4", "Edge", "Level", "Auto", "Passes"],
     trusted_base=_PIPE_TB,
-    assumptions=["blocks of one run carry contiguous frame numbers (C03/C04 establish this for the real sources)"],
+    assumptions=["blocks of one run carry contiguous frame numbers and one sample period (C03/C04 establish contiguity for the real sources)",
+                 "no-crash theorem covers the edge/level/auto passes (any buffer, any settings, 3 <= npre < nsamp); for edge-multi and for "
+                 "secondary records a crash is excluded only by the correspondence run (PANIC output = violation) and the C08 check"],
     timeout=dict(quick=900, thorough=3600),
 )
-MANIFEST = dict(text="", note="", technique="")
-THEOREMS = []
+MANIFEST = dict(
+    text="Theorems over the pipeline model (append/trim/cut, all trigger passes, group triggers, control requests), for all streams, all block partitions, "
+         "all trigger configurations and all request histories: invariant SrcInv (each channel's buffer is a suffix of the delivered stream, first = frame of "
+         "its first sample) is preserved by every operation; every record the model publishes (primary, secondary, any trigger type) is the exact excerpt "
+         "around its stated frame, with the time the block stamp assigns, the block's signedness and, outside edge-multi, the configured lengths "
+         "(C01_block_exact, C01_records_exact, C01_run_exact); the run-time oracle chkRec accepts exactly such records (C01_oracle_sound); the edge/level/auto "
+         "passes never index out of range (C01_no_crash_nonEMT). The model is compared record-for-record with the real ProcessSegments pipeline on every run and "
+         "the same oracle judges the real records against the ground-truth stream.",
+    note="Trusted: Lean 4.33 kernel (axioms propext, Classical.choice, Quot.sound only; audited every run); the hand-written model is tied to the Go code only by "
+         "differential testing with seeded generators (not a proof). Partial: 'never crashes' is proved for edge/level/auto triggering only; for edge-multi and "
+         "secondaries it rests on the correspondence run (crash = violation). Decimation (unreachable from any API) is not modelled. Two crash defects found by "
+         "this check were repaired in /repo (5067219, fbc46c8).",
+    technique="Lean 4 theorems (invariant + induction over operation histories) over an executable model; model tied to the Go code by a differential correspondence run",
+)
+THEOREMS = [
+    ("DastardV.Props.C01", "DastardV.C01.C01_block_exact"),
+    ("DastardV.Props.C01", "DastardV.C01.C01_records_exact"),
+    ("DastardV.Props.C01", "DastardV.C01.C01_run_exact"),
+    ("DastardV.Props.C01", "DastardV.C01.C01_oracle_sound"),
+    ("DastardV.Props.C01", "DastardV.C01.C01_no_crash_nonEMT"),
+    ("DastardV.Lemmas.Pipe1", "DastardV.Trig.cut_exact"),
+    ("DastardV.Lemmas.Pipe1", "DastardV.Trig.append_rep"),
+    ("DastardV.Lemmas.Pipe1", "DastardV.Trig.trim_rep"),
+]
